@@ -133,7 +133,13 @@ static void xof_incremental(const xofcfg_t *c, const uint8_t *in, size_t inlen, 
     if (st2) { xof_free(c->a, st2); gfree(st2); }
 }
 
-static const size_t DECLARED[] = {0, 1, 2, 7, 8, 16, 31, 32, 33, 40, 64, 65536, ((size_t)1 << 29) - 1, (size_t)1 << 29, ((size_t)1 << 29) + 1, (size_t)-1};
+static const size_t DECLARED[] = {0, 1, 2, 7, 8, 16, 31, 32, 33, 40, 64, 65536, ((size_t)1 << 29) - 1, (size_t)1 << 29, ((size_t)1 << 29) + 1, (size_t)-1,
+#if SIZE_MAX > 0xffffffffu
+    /* lengths whose low 32 bits look small: a clamp evaluated after narrowing to 32 bits goes wrong exactly here */
+    (size_t)1 << 31, (size_t)1 << 32, ((size_t)1 << 32) + 1, ((size_t)1 << 32) + 32, ((size_t)1 << 32) + 33, ((size_t)1 << 33) + 64, ((size_t)1 << 32) + ((size_t)1 << 29) - 1,
+    ((size_t)1 << 63) + 5, ((size_t)7 << 32) + 16,
+#endif
+};
 
 static void case_xof(uint64_t sub, int a, int kind)
 {
@@ -329,8 +335,26 @@ static void case_prf(uint64_t sub, int fixed)
 static void case_prf_short(uint64_t sub)
 {
     size_t inlen = sub < 19 * 19 ? (size_t)(sub / 19) : rng_below(R, 40), outlen = sub < 19 * 19 ? (size_t)(sub % 19) : rng_below(R, 40);
-    uint8_t *in = rand_in(inlen, 1), *key = rand_in(16, 0), *out = (uint8_t *)galloc(outlen, 1), exp[16];
-    int res, want = (inlen > 16 || outlen > 16) ? -1 : 0;
+    uint8_t *in, *key = rand_in(16, 0), *out, exp[16];
+    int res, want;
+    size_t in_real = inlen, out_real = outlen;
+    if (sub >= 19 * 19 && rng_below(R, 4) == 0) {
+        /* huge lengths (over-long by far, also k * 2^32 + r with r <= 16, which a check done after narrowing to 32 bits lets
+           through): must be refused; the real buffers are 16 bytes, which is all a wrongly accepting implementation touches */
+        static const size_t HUGE_[] = {
+#if SIZE_MAX > 0xffffffffu
+            (size_t)1 << 32, ((size_t)1 << 32) + 1, ((size_t)1 << 32) + 16, (size_t)1 << 33, ((size_t)5 << 32) + 7, (size_t)1 << 63,
+#endif
+            (size_t)-1, (size_t)-16, ((size_t)-1 >> 1) + 1, 0x10010, 0x100};
+        size_t h = HUGE_[rng_below(R, sizeof(HUGE_) / sizeof(HUGE_[0]))];
+        /* only the INPUT length is made huge: an implementation may legitimately clear all `outlen` bytes of the output when it
+           refuses, so a huge outlen over a small buffer would be outside the contract; nothing needs to read an over-long input */
+        in_real = 16;
+        inlen = h;
+        outlen = out_real = rng_below(R, 17);
+    }
+    in = rand_in(in_real, 1); out = (uint8_t *)galloc(out_real, 1);
+    want = (inlen > 16 || outlen > 16) ? -1 : 0;
     vf_progress("case=%llu prf-short inlen=%zu outlen=%zu", (unsigned long long)vf_case, inlen, outlen);
     res = ascon_prf_short(out, outlen, in, inlen, key);
     vf_out_int(res);
@@ -344,7 +368,7 @@ static void case_prf_short(uint64_t sub)
         vf_out(out, outlen);
     } else {
         size_t touched = 0;
-        for (size_t i = 0; i < outlen; ++i) touched += out[i] != GPAT;
+        for (size_t i = 0; i < out_real; ++i) touched += out[i] != GPAT;
         if (touched) vf_count("prf_short_error_output_touched", 1);
     }
     vf_distinct("prf-short|in%zu|out%zu", inlen > 17 ? 18 : inlen, outlen > 17 ? 18 : outlen);
@@ -475,9 +499,15 @@ static void case_kmac(uint64_t sub, int a, int kdf)
     /* the declared output length of the incremental init is a parameter of its own (0 = arbitrary length): squeeze
      * `outlen` bytes from a state initialised with a DIFFERENT declared length and compare with the reference */
     {
-        static const size_t DECL[] = {0, 0, 1, 16, 31, 32, 33, 64, 1000};
-        size_t declared = DECL[rng_below(R, 9)];
-        uint64_t d = declared;
+        static const size_t DECL[] = {0, 0, 1, 16, 31, 32, 33, 64, 1000, (size_t)1 << 29,
+#if SIZE_MAX > 0xffffffffu
+            ((size_t)1 << 32) + 32, ((size_t)1 << 33) + 1,
+#else
+            ((size_t)1 << 29) + 32, ((size_t)1 << 30) + 1,
+#endif
+        };
+        size_t declared = DECL[rng_below(R, 12)];
+        uint64_t d = declared >= ((size_t)1 << 29) ? 0 : declared;      /* customised XOF: 2^29 bytes and above mean "arbitrary length" */
         char key2[64];
         if (kdf) ref_cxof(a, exp, outlen, d, (const uint8_t *)"KDF", 3, custom, customlen, key, keylen);
         else { uint8_t *x = (uint8_t *)malloc(keylen + inlen + 1); if (keylen) memcpy(x, key, keylen); if (inlen) memcpy(x + keylen, in, inlen);
@@ -503,8 +533,10 @@ static void case_hkdf(uint64_t sub, int a)
     size_t keylen = rng_below(R, 8) == 0 ? 1024 : rng_below(R, 131), saltlen = rng_below(R, 3) == 0 ? 0 : rng_below(R, 131), infolen = rng_below(R, 3) == 0 ? 0 : rng_below(R, 71);
     size_t outlen = sub % 4 == 0 ? 8128 + rng_below(R, 65) : sub % 4 == 1 ? rng_below(R, 101) : pick_len(R, 32, 2000);
     uint8_t *key = rand_in(keylen, 1), *salt = rand_in(saltlen, 1), *info = rand_in(infolen, 1);
-    uint8_t *out = (uint8_t *)galloc(outlen, 1), *exp = (uint8_t *)malloc(8160 + 1);
+    uint8_t *out, *exp = (uint8_t *)malloc(8160 + 1);
     const char *alg = a ? "hkdfa" : "hkdf";
+    size_t out_real = outlen;   /* (a huge outlen over a small buffer would be outside the API contract: a refusing implementation may clear all outlen bytes) */
+    out = (uint8_t *)galloc(out_real, 1);
     char ctx[600];
     int res, want = outlen > 8160 ? -1 : 0, ok = 1;
     vf_progress("case=%llu %s keylen=%zu saltlen=%zu infolen=%zu outlen=%zu", (unsigned long long)vf_case, alg, keylen, saltlen, infolen, outlen);
